@@ -231,6 +231,9 @@ fn run_c05(table: &'static [GrammarEntry], ctxs: &[(usize, GCtx)], cr: &CaseRunn
         let base = &members[0].1;
         let rules: Vec<&str> = table[members[0].0].rules.iter().map(|e| e.rule).filter(|r| members.iter().all(|m| find_rule(table, m.0, r).is_some())).collect();
         for rule in rules {
+            if partial.violations.len() >= 3 {
+                return;
+            }
             let mm = members.clone();
             run_loop(cr, base, rule, cr.cases, partial, &mut |input| c05_case(table, &mm, rule, input), &mut |input, f| group_violation("C05", &mm, rule, input, f));
         }
@@ -254,6 +257,7 @@ fn c06_case(g: &GCtx, e: &RuleEntry, input: &str) -> Result<CaseOut, Failure> {
         return Ok(out);
     }
     let o = interp::run(&g.model, &g.shapes, e.rule, input, interp::Cfg { memo_aware: true, ..Default::default() });
+    crate::set_fuel_from_oracle(o_plain.stats.rule_calls);
     let rec = observe(e.parse, input, MODE_REC, 0);
     if rec.panic.is_some() {
         out.skipped = Some("panic_or_fuel");
@@ -324,6 +328,9 @@ fn c06_case(g: &GCtx, e: &RuleEntry, input: &str) -> Result<CaseOut, Failure> {
 fn run_c06(table: &'static [GrammarEntry], ctxs: &[(usize, GCtx)], cr: &CaseRunner, partial: &mut Partial) {
     for (ti, g) in ctxs {
         for e in table[*ti].rules {
+            if partial.violations.len() >= 3 {
+                return;
+            }
             run_loop(cr, g, e.rule, cr.cases, partial, &mut |input| c06_case(g, e, input), &mut |input, f| violation_json("C06", g, e.rule, input, f));
         }
     }
@@ -339,6 +346,7 @@ fn c07_case(g: &GCtx, e: &RuleEntry, input: &str) -> Result<CaseOut, Failure> {
         out.skipped = Some("oracle_diverged");
         return Ok(out);
     }
+    crate::set_fuel_from_oracle(o.stats.rule_calls);
     let rec = observe(e.parse, input, MODE_REC, 0);
     if is_fuel(&rec) {
         return Err(fail(format!("@leftrec parse of rule {} on {:?} does not terminate (tracer fuel / depth exhausted)", e.rule, input), oracle_summary(&o), rec.summary()));
@@ -398,8 +406,7 @@ fn c07_constructive(g: &GCtx, e: &RuleEntry, bytes: &[u8]) -> Result<(CaseOut, S
         consumed += dangling.len() + 1;
         steps += 1;
     }
-    let skipping = g.model.normal("E").map_or(false, |n| !n.no_skip_ws());
-    let _ = skipping;
+    crate::set_fuel(20_000 + 2_000 * input.len());
     let rec = observe(e.parse, &input, MODE_REC, 0);
     if is_fuel(&rec) {
         return Err(fail(format!("@leftrec parse on {:?} does not terminate", input), tree, rec.summary()));
@@ -420,6 +427,9 @@ fn c07_constructive(g: &GCtx, e: &RuleEntry, bytes: &[u8]) -> Result<(CaseOut, S
 fn run_c07(table: &'static [GrammarEntry], ctxs: &[(usize, GCtx)], cr: &CaseRunner, partial: &mut Partial) {
     for (ti, g) in ctxs {
         for e in table[*ti].rules {
+            if partial.violations.len() >= 3 {
+                return;
+            }
             run_loop(cr, g, e.rule, cr.cases, partial, &mut |input| c07_case(g, e, input), &mut |input, f| violation_json("C07", g, e.rule, input, f));
             if g.spec.flags.constructive.is_some() && (e.rule == "E" || e.rule == "W_E") {
                 // constructive oracle
@@ -519,6 +529,9 @@ fn run_c13(table: &'static [GrammarEntry], ctxs: &[(usize, GCtx)], cr: &CaseRunn
         partial.evaluations += 1;
         let rules: Vec<&str> = table[a.0].rules.iter().map(|e| e.rule).filter(|r| find_rule(table, b.0, r).is_some()).collect();
         for rule in rules {
+            if partial.violations.len() >= 3 {
+                return;
+            }
             run_loop(cr, &a.1, rule, cr.cases, partial, &mut |input| c13_case(table, a, b, rule, input), &mut |input, f| group_violation("C13", &[a, b], rule, input, f));
         }
     }
@@ -552,6 +565,9 @@ fn run_c16(table: &'static [GrammarEntry], ctxs: &[(usize, GCtx)], cr: &CaseRunn
         let (a, b) = if members[0].1.spec.role == "library" { (members[0], members[1]) } else { (members[1], members[0]) };
         let rules: Vec<&str> = table[a.0].rules.iter().map(|e| e.rule).filter(|r| find_rule(table, b.0, r).is_some()).collect();
         for rule in rules {
+            if partial.violations.len() >= 3 {
+                return;
+            }
             run_loop(cr, &a.1, rule, cr.cases, partial, &mut |input| c16_case(table, a, b, rule, input), &mut |input, f| group_violation("C16", &[a, b], rule, input, f));
         }
     }
